@@ -15,7 +15,12 @@ HOW = {
  "c08-7": "RFC 7748 public keys imported from non-canonical encodings (u + p) added to the equality matrix",
  "c08-9": "every export checks that the caller's `prot_params` dictionary is unchanged, and one dictionary is reused across a PBKDF2 and a scrypt export in both orders",
  "c09-8": "every cut of a KangarooTwelve message of 3 chunks + 1000 bytes (25 577 two-piece cuts, plus three-piece cuts)",
- "c01-7": None,
+ "c15-8": "the AEAD is also given by its RFC 9180 code point (a plain int) on every suite; the context must behave as with the enum member",
+ "c18-9": "`random_range` with the caller's own `Integer` objects as bounds, the same two objects in every call of the tape tree",
+ "c13-8": "DerSequence keyword histories: every sequence of 2 (3) `decode(x, nr_elements=… / only_ints_expected=… / strict=…)` calls on one object against fresh objects",
+ "c13-9": "every PEM DEK-Info algorithm (texts built by the reference) in the quick tier too; the returned (data, marker, encrypted?) tuple is compared",
+ "c20-8": "quick tier: 40 shares 1..40 and 24 shares with the indexes 232..255 (index products beyond degree 128); the thorough tier had every k = 7..64 already",
+ "c14-11": "`from_bytes` is called twice from ONE carrier object (bytes, bytearray, memoryview): the buffer must read the same and the second value equal the first",
 }
 def wave3(s):
     p, n = s.split("-"); n = int(re.match(r"\d+", n).group())
